@@ -147,6 +147,7 @@ type unaryRpcArgs struct {
 }
 
 type streamHandler struct {
+	ctx    context.Context
 	ch     chan *goatorepo.Rpc
 	done   chan struct{}
 	cancel context.CancelFunc
@@ -429,6 +430,10 @@ func (h *handler) processStreamingRpc(
 		} else {
 			select {
 			case handler.ch <- rpc:
+			case <-handler.ctx.Done():
+				// The stream has finished (or been cancelled) and will never read
+				// this; drop it rather than block the connection's read loop, which
+				// holds the lock that the stream needs in order to unregister.
 			case <-clientCtx.Done():
 				return clientCtx.Err()
 			case <-h.ctx.Done():
@@ -467,6 +472,7 @@ func (h *handler) processStreamingRpc(
 	streamId := rpc.Id
 
 	h.streams[streamId] = streamHandler{
+		ctx:    ctx,
 		ch:     make(chan *goatorepo.Rpc, 1),
 		done:   make(chan struct{}, 1),
 		cancel: cancel,
